@@ -171,11 +171,20 @@ class Gen:
         args = [self.gen_inner(tvars, rvars, 2, True) for _ in range(nargs)]
         # a quantifier in the middle of the spine (forall a. a -> (forall b. b -> ...))
         late = []
+        tvars_pre = list(tvars)
         if rng.chance(1, 5):
             b = self.var("a")
             late = [("q", b, "t"), ("a", self.gen_inner(tvars + [b], rvars, 1, True, False))]
             tvars = tvars + [b]
         res = self.gen_inner(tvars, rvars, 2, False)
+        if rvars and rng.chance(1, 2):
+            # a result that mentions the row variable, and an argument that provides it
+            r = rng.choice(rvars)
+            ls = rng.shuffle(FIELDS)[:rng.range(0, 2)]
+            res = ("rec", [(l, self.gen_inner(tvars, rvars, 1, False)) for l in sorted(ls)], r)
+            if not any(a[0] == "rec" and a[2] == r for a in args):
+                ls = rng.shuffle(FIELDS)[:rng.range(0, 2)]
+                args[rng.below(len(args))] = ("rec", [(l, self.gen_inner(tvars_pre, rvars, 1, False)) for l in sorted(ls)], r)
         spine = spine + [("a", a) for a in args] + late
         return spine, res
 
@@ -468,20 +477,89 @@ TAIL_INSPECTORS = [
 ]
 
 
+def features(T):
+    """which constructs a signature exercises (for the evidence histograms)"""
+    f = set()
+
+    def go(t, neg, top):
+        k = t[0]
+        if k == "forall":
+            f.add("row-var" if t[2] == "r" else "type-var")
+            if neg:
+                f.add("higher-rank")
+            elif not top:
+                f.add("mid-spine-forall")
+            go(t[3], neg, top)
+        elif k == "fun":
+            if neg:
+                f.add("callback")
+            go(t[1], not neg, False)
+            go(t[2], neg, False)
+        elif k == "arr":
+            f.add("array")
+            go(t[1], neg, False)
+        elif k == "rec":
+            f.add("record-tail" if t[2] not in (None, "dyn") else "record")
+            for _, s in t[1]:
+                go(s, neg, False)
+        elif k == "alias":
+            f.add("alias")
+            go(t[1], neg, False)
+    go(T, False, True)
+    return sorted(f)
+
+
+CTX_TEMPLATES = [
+    # (type with a higher-rank argument, impl that certainly calls it, extra args)
+    ("(-> (forall b t (-> (tv b) (tv b))) (-> S S))", "(lam g (lam x (app (v g) (v x))))"),
+    ("(-> (forall b t (-> (tv b) (arr (tv b)))) (-> S (arr S)))", "(lam g (lam x (app (v g) (v x))))"),
+    ("(forall a t (-> (forall b t (-> (tv b) (-> (tv a) (tv b)))) (-> (tv a) (-> S S))))", "(lam g (lam y (lam x (app (app (v g) (v x)) (v y)))))"),
+]
+
+
+def ctx_case(rng, g):
+    """the caller supplies, for a higher-rank argument, a function that inspects or fabricates: Blame-"""
+    ty, impl = rng.choice(CTX_TEMPLATES)
+    S, val = rng.choice([("num", "(n 3)"), ("str", "(s u)"), ("bool", "(b t)"), ("(arr num)", "(arr (n 1))")])
+    ty = ty.replace("S", S)
+    y = g.var("c")
+    mode = rng.choice(["inspect", "inspect", "fabricate"])
+    if mode == "inspect":
+        name, tmpl = rng.choice(INSPECTORS)
+        body = "(seq %s (v %s))" % (tmpl.replace("E", "(v %s)" % y), y)
+    else:
+        name, body = "const", val
+    if "(arr (tv b))" in ty:
+        body = "(arr %s)" % body if mode == "fabricate" else "(seq %s (arr (v %s)))" % (tmpl.replace("E", "(v %s)" % y), y)
+    if ty.startswith("(forall a"):
+        garg = "(lam %s (lam cz %s))" % (y, body)
+        args = [garg, val, val]
+    else:
+        args = ["(lam %s %s)" % (y, body), val]
+    e = "(ann %s %s)" % (ty, impl)
+    for a in args:
+        e = "(app %s %s)" % (e, a)
+    return {"sx": e, "klass": "ctx-" + mode, "prim": name, "feat": ["higher-rank", "type-var"]}
+
+
 def make_cases(rng, n, want_alias=False):
     """-> list of dict(sx, klass, prim, note)"""
     out = []
     g = Gen(rng)
     while len(out) < n:
+        if rng.chance(1, 25):
+            out.append(ctx_case(rng, g))
+            continue
         c = g.case()
         if c is None:
             continue
+        nout = len(out)
         base = g.assemble(c, c["body"])
         atoms = g.atoms(c["env"])
         var_atoms = [(e, s) for e, s in atoms if s[0] == "tv"]
         row_atoms = [(e, s) for e, s in atoms if s[0] == "rec" and s[2] not in (None, "dyn")]
         kind = rng.weighted([("parametric", 5), ("inspect", 6), ("noninspect", 2), ("fabricate", 2),
-                             ("tail", 4), ("launder", 1), ("alias", 1)])
+                             ("tail", 5), ("launder", 1), ("alias", 3)])
         if kind == "parametric":
             out.append({"sx": base, "klass": "parametric", "prim": "-"})
         elif kind == "inspect" and var_atoms:
@@ -505,6 +583,8 @@ def make_cases(rng, n, want_alias=False):
             e, s = rng.choice(row_atoms)
             row = c["m"][s[2]][1]
             sub = rng.below(6)
+            if c["res"][0] == "rec" and c["res"][2] not in (None, "dyn") and rng.chance(1, 2):
+                sub = rng.range(4, 5)
             if sub <= 3 and (row or sub >= 2):
                 name, tmpl = TAIL_INSPECTORS[sub]
                 lab = row[0][0] if row else "ta"
@@ -523,13 +603,16 @@ def make_cases(rng, n, want_alias=False):
         elif kind == "alias":
             # a closed higher-rank argument type used through a let-bound alias
             spine = c["spine"]
-            idx = [i for i, it in enumerate(spine) if it[0] == "a" and it[1][0] == "forall" and not _free(it[1])]
+            idx = [i for i, it in enumerate(spine) if it[0] == "a" and it[1][0] in ("forall", "fun", "rec", "arr") and not _free(it[1])]
             if idx:
                 i = rng.choice(idx)
                 sp2 = list(spine)
                 sp2[i] = ("a", ("alias", spine[i][1]))
                 T2 = Gen.build_type(sp2, c["res"])
                 out.append({"sx": g.assemble(c, c["body"], T=T2), "klass": "parametric-alias", "prim": "alias"})
+                out[-1]["feat"] = features(T2)
+        if len(out) > nout and "feat" not in out[-1]:
+            out[-1]["feat"] = features(c["T"])
     return out
 
 
